@@ -93,6 +93,82 @@ PACKAGES = {"zcsim_p0": {"is_package": True},
 
 
 # ---------------------------------------------------------------------------
+# exhaustive stratum: every include graph over three files
+
+GRAPH_SCHEMA = """<schema>
+  <sectiontype name="st">
+    <multikey name="k" datatype="string"/>
+  </sectiontype>
+  <multikey name="k" datatype="string"/>
+  <multisection type="st" name="*" attribute="s"/>
+</schema>
+"""
+GRAPH_URLS = [
+    ["file:///sim/g/d/top.conf", "file:///sim/g/d/sub/f1.conf",
+     "file:///sim/g/other/f2.conf"],
+    ["http://sim.test/g/d/top.conf", "http://sim.test/g/d/sub/f1.conf",
+     "http://sim.test/g/other/f2.conf"],
+]
+GRAPH_REL = {(0, 0): "top.conf", (0, 1): "sub/f1.conf",
+             (0, 2): "../other/f2.conf", (1, 0): "../top.conf",
+             (1, 1): "f1.conf", (1, 2): "../../other/f2.conf",
+             (2, 0): "../d/top.conf", (2, 1): "../d/sub/f1.conf",
+             (2, 2): "f2.conf"}
+GRAPH_VARIANTS = 4
+N_GRAPH = 512 * GRAPH_VARIANTS
+
+
+def graph_plan(index):
+    """Plan number *index* of the exhaustive include-graph stratum: bit
+    (3*i + j) of the graph number says that file i includes file j; the
+    variant decides reference spelling, transport and where the include lines
+    stand (between the file's own keys, or inside a section of the top
+    file).  The expected outcome comes from a textual-inclusion model: a
+    graph with a cycle reachable from the top resource is rejected, every
+    other one yields the keys in reading order."""
+    g, variant = index % 512, index // 512
+    urls = GRAPH_URLS[1 if variant == 3 else 0]
+    edges = {i: [j for j in range(3) if g >> (3 * i + j) & 1]
+             for i in range(3)}
+    store = {}
+    for i in range(3):
+        ls = ["k f%d-a" % i]
+        inc = []
+        for j in edges[i]:
+            ref = urls[j] if variant == 1 else GRAPH_REL[(i, j)]
+            inc.append("%include " + ref)
+        if variant == 2 and i == 0:
+            inc = ["<st sec>"] + inc + ["</st>"]
+        ls += inc + ["k f%d-b" % i]
+        store[urls[i]] = "\n".join(ls) + "\n"
+
+    def inline(i, stack):
+        if i in stack:
+            raise RecursionError
+        vals = ["f%d-a" % i]
+        for j in edges[i]:
+            vals += inline(j, stack + [i])
+        return vals + ["f%d-b" % i]
+    try:
+        vals = inline(0, [])
+        if variant == 2:
+            expect = {"ok": True, "k": ["f0-a", "f0-b"], "s": vals[1:-1]}
+        else:
+            expect = {"ok": True, "k": vals, "s": None}
+    except RecursionError:
+        expect = {"ok": False}
+    entry = ["url", "file", "path", "url"][(g + variant) % 4]
+    if entry == "path" and not urls[0].startswith("file:"):
+        entry = "url"
+    return {"prop": ID, "schema_xml": GRAPH_SCHEMA, "store": store,
+            "top": urls[0], "entry": entry, "overrides": [],
+            "realfs": False, "faults": [], "validator": None,
+            "labels": ["graph-enum:" + ("cyclic" if not expect["ok"]
+                                        else "acyclic")],
+            "expect": expect}
+
+
+# ---------------------------------------------------------------------------
 # generation
 
 def _override_pool(rng, ir, uni):
@@ -155,6 +231,8 @@ def _corrupt_override(rng, item):
 
 
 def generate(rng, tier, index):
+    if index < N_GRAPH:
+        return graph_plan(index)
     ir, lines = G.gen_pair(rng, {"handlers": False, "callbacks": False,
                                  "std_only": True, "std_keytypes": True},
                            {"full": rng.choice([0.5, 0.8, 1.0])})
@@ -209,6 +287,30 @@ def generate(rng, tier, index):
             store[u], lab = corrupt.corrupt(rng, store[u])
             if lab:
                 labels.append(lab)
+    if mode in ("content", "mixed", "graph") and len(urls) > 1 \
+            and rng.random() < 0.35:
+        # the same line in two different resources of one load: a line copied
+        # from one resource into another, or a name %define-d in both
+        # (same value, another value, another letter case)
+        a, b = rng.sample(urls, 2)
+        if rng.random() < 0.5:
+            src = [x for x in store[a].split("\n") if x.strip()]
+            if src:
+                store[b] = corrupt.insert_line(rng, store[b],
+                                               rng.choice(src))
+                labels.append("line-copied-across-resources")
+        else:
+            existing = [x.split()[1] for u in urls
+                        for x in store[u].split("\n")
+                        if x.strip().lower().startswith("%define ")
+                        and len(x.split()) > 1]
+            nm = rng.choice(existing) if existing and rng.random() < 0.6 \
+                else "zzc"
+            for u, v in ((a, "one"), (b, rng.choice(["one", "two", ""]))):
+                store[u] = corrupt.insert_line(
+                    rng, store[u], "%%define %s %s" % (
+                        rng.choice([nm, nm.upper(), nm.lower()]), v))
+            labels.append("define-in-two-resources")
     if mode in ("content", "mixed") and rng.random() < 0.15:
         # a name defined as empty, then lines whose directive argument, key
         # or section header consists of a reference to it
@@ -414,7 +516,27 @@ def _execute(plan, out, scratch):
                          o.get("raised_in"), o.get("site")),
                       {"cls": o["cls"], "site": o.get("site"),
                        "raised_in": o.get("raised_in")})
-        if (not o["ok"]) or fired:
+        exp = plan.get("expect")
+        if exp is not None and not internal(o):
+            probe("graph-enum:" + ("accepted" if o["ok"] else "rejected"))
+            if exp["ok"] != o["ok"]:
+                violation("graph-outcome",
+                          "include graph %s: the load was %s"
+                          % ("without a cycle reachable from the top resource"
+                             if exp["ok"] else "with a cycle",
+                             ops.brief(o)),
+                          {"cls": o.get("cls"), "site": o.get("site")})
+            elif o["ok"]:
+                got_k = o["tree"]["attrs"].get("k")
+                secs = o["tree"]["attrs"].get("s") or []
+                got_s = secs[0]["attrs"].get("k") if secs else None
+                if got_k != exp["k"] or got_s != exp["s"]:
+                    violation("graph-outcome",
+                              "include graph without cycle: keys %r / "
+                              "section keys %r, textual inclusion gives %r "
+                              "/ %r" % (got_k, got_s, exp["k"], exp["s"]),
+                              {"cls": None, "site": None})
+        if (not o["ok"]) or fired or exp is not None:
             h = hashlib.sha256(json.dumps(
                 [plan["schema_xml"], plan["store"], overrides, entry,
                  plan.get("faults")], sort_keys=True).encode())
@@ -565,6 +687,8 @@ def _execute(plan, out, scratch):
 # minimisation
 
 def shrink(plan):
+    if plan.get("expect") is not None:
+        return
     if plan["schema_xml"] != "<schema/>\n":
         new = dict(plan)
         new["schema_xml"] = "<schema/>\n"
